@@ -39,10 +39,14 @@ ANCHORS = [
     (SOCKET_PY, "AsyncioTransportStreamSocketAdapter.recv_into"),
     ("src/easynetwork/lowlevel/api_async/backend/_asyncio/tasks.py", "TaskUtils.coro_yield"),
 ]
-RULE = ("protocol level: every sequence of enabled labels up to length 5 (quick) / 6 (thorough) over {recv(2), "
-        "recv_into(2), data(1 byte), data(3 bytes), eof, lost(None), lost(exc), cancel, wake, turn} (enabledness is "
+RULE = ("protocol level: every sequence of enabled labels up to length 4 (quick) / 5 (thorough) over {recv(2), "
+        "recv_into(2), data(1 byte), data(3 bytes), eof, lost(None), lost(exc), cancel, wake, turn} and up to length 6 / 7 "
+        "over the race alphabet {recv_into(2), data(3), cancel, wake, turn} (enabledness is "
         "decided by the implementation's own answers, a disabled label prunes the branch), each followed by a fixed "
-        "drain suffix that reads back what is parked; plus seeded random sequences of 8-24 labels with sizes 1-9. "
+        "drain suffix that reads back what is parked; plus seeded random sequences of 8-24 labels with sizes 1-9; plus "
+        "label traces recorded from AsyncStreamEndpoint.recv_packet, the server request receivers and TLS over the "
+        "socket adapter on the ordinary event loop (timeout / move_on_after / task.cancel, read events 0.25 ns before, "
+        "at and after each deadline so both same-iteration orders occur). "
         "All delivered bytes are distinct so loss, duplication and reordering are attributable. Non-trivial = the "
         "sequence contains a cancellation request issued while a receive is in flight, or a connection loss / EOF "
         "while a receive is in flight.")
@@ -561,9 +565,10 @@ def _tags(shape, obs):
     return sorted(tags), nontrivial
 
 
-def _enumerate(depth):
+def _enumerate(depth, alphabet=None, min_len=1):
     """DFS over label shapes; a label the implementation reports as disabled prunes the branch."""
     out = []
+    alphabet = alphabet or ALPHABET
 
     def rec(prefix):
         if prefix:
@@ -572,10 +577,11 @@ def _enumerate(depth):
             obs = res[0][:len(prefix)]
             if obs[-1] == DISABLED:
                 return
-            out.append((prefix, labels, res))
+            if len(prefix) >= min_len:
+                out.append((prefix, labels, res))
         if len(prefix) >= depth:
             return
-        for lab in ALPHABET:
+        for lab in alphabet:
             rec(prefix + [lab])
     rec([])
     return out
@@ -583,11 +589,21 @@ def _enumerate(depth):
 
 def cases(tier, rng, escalate):
     thorough = tier == "thorough" or escalate
-    depth = int(os.environ.get("VERIF_C10_DEPTH", "6" if thorough else "5"))
-    for shape, labels, res in _enumerate(depth):
-        tags, nontrivial = _tags(shape, res[0])
-        _cache[repr(labels)] = res
-        yield dict(input=[0, 2, labels], tags=["proto", "exhaustive"] + tags, nontrivial=nontrivial)
+    depth = int(os.environ.get("VERIF_C10_DEPTH", "5" if thorough else "4"))
+    seen = set()
+    race = [[L_INTO, 2], [L_DATA, 3], [L_CANCEL], [L_WAKE], [L_TURN]]
+    plans = [(depth, ALPHABET, 1, "exhaustive"), (7 if thorough else 6, race, depth + 1, "exhaustive-race-alphabet")]
+    if thorough:
+        plans.append((6, race + [[L_RECV, 2]], depth + 1, "exhaustive-race-alphabet+recv"))
+    for d, alphabet, min_len, tag in plans:
+        for shape, labels, res in _enumerate(d, alphabet, min_len):
+            key = repr(labels)
+            if key in seen:
+                continue
+            seen.add(key)
+            tags, nontrivial = _tags(shape, res[0])
+            _cache[key] = res
+            yield dict(input=[0, 2, labels], tags=["proto", tag] + tags, nontrivial=nontrivial)
     n_random = 6000 if thorough else 1500
     weights = [(L_RECV, 3), (L_INTO, 4), (L_DATA, 5), (L_EOF, 1), (L_LOST, 1), (L_CANCEL, 4), (L_WAKE, 5), (L_TURN, 5)]
     kinds = [k for k, w in weights for _ in range(w)]
@@ -866,14 +882,43 @@ def run_scenario(scenario):
             feeder = Feeder(loop, proto, rec)
             results = []
             packets = []
-            t0 = loop.time()
 
             def schedule_events():
                 for time, kind, payload in events:
-                    cb = (lambda p=payload: feeder.push(p)) if kind == 0 else feeder.push_eof
+                    if kind == 0 and layer == 2:
+                        cb = (lambda p=payload: deliver_plain(p))
+                    else:
+                        cb = (lambda p=payload: feeder.push(p)) if kind == 0 else feeder.push_eof
                     loop.call_at(t0 + _t(time), cb)
 
-            receive = _receive_fn(layer, consumer, backend, adapter, packets)
+            sent_plain = bytearray()
+            if layer == 2:
+                import tlskit
+                from easynetwork.lowlevel.api_async.transports.tls import AsyncTLSStreamTransport
+                version = tlskit.TLS13 if consumer == 1 else tlskit.TLS12
+                peer = TlsPeer(version)
+
+                def on_write(data):
+                    reply = peer.feed(data)
+                    if reply:
+                        loop.call_soon(feeder.push, reply)
+                wire.on_write = on_write
+                tls = await AsyncTLSStreamTransport.wrap(adapter, tlskit.client_ctx(version), server_hostname="localhost",
+                                                         server_side=False, standard_compatible=False)
+                out["handshake_labels"] = len(rec.labels)
+
+                async def receive(timeout):
+                    data = await tls.recv(64)
+                    if not data:
+                        raise ConnectionAbortedError(errno.ECONNABORTED, "end of TLS stream")
+                    return bytes(data)
+
+                def deliver_plain(payload):
+                    sent_plain.extend(payload)
+                    feeder.push(peer.encrypt(payload))
+            else:
+                receive = _receive_fn(layer, consumer, backend, adapter, packets)
+            t0 = loop.time()
 
             async def attempt(budget):
                 """one receive attempt limited by `budget`; -> [0, pkt] | [1] timed out / moved on / cancelled | [2] closed"""
@@ -908,6 +953,8 @@ def run_scenario(scenario):
                     return [2]
                 except StopAsyncIteration:
                     return [2]
+                except OSError as exc:          # e.g. ssl.SSLError after ciphertext went missing
+                    return [3, exc.errno or 0]
 
             async def consume():
                 if late_feed:
@@ -935,16 +982,22 @@ def run_scenario(scenario):
             out["consumer_task"] = consumer_task = loop.create_task(consume())
             await consumer_task
             with contextlib.suppress(Exception):
-                await adapter.aclose()
+                await (tls.aclose() if layer == 2 else adapter.aclose())
             out["results"] = results
+            out["sent_plain"] = bytes(sent_plain)
             out["packets"] = packets
 
         loop.run_until_complete(main())
         rec._turns()
 
     got = [r[1] for r in out["results"] if r[0] == 0]
-    expected = frames_of(rec.returned) if layer != 2 else None
-    packets_ok = 1 if (layer == 2 or got == expected) else 0
+    if layer == 2:
+        # plaintext comes out in order; all of it when no ciphertext went missing below and no error was reported
+        plain = b"".join(got)
+        complete = plain == out["sent_plain"] or rec.returned != rec.delivered or any(r[0] == 3 for r in out["results"])
+        packets_ok = 1 if out["sent_plain"].startswith(plain) and complete else 0
+    else:
+        packets_ok = 1 if got == frames_of(rec.returned) else 0
     return rec.labels, rec.obs, bytes(rec.delivered), bytes(rec.returned), packets_ok, out["results"]
 
 
@@ -980,8 +1033,78 @@ def _receive_fn(layer, consumer, backend, adapter, packets):
     raise ValueError(f"layer {layer}")
 
 
+class TlsPeer:
+    """the remote end: an independent stdlib ssl.SSLObject (server side) over two MemoryBIOs, pumped by the harness"""
+
+    def __init__(self, version):
+        import ssl
+        import tlskit
+        self.ssl = ssl
+        self.inc, self.out = ssl.MemoryBIO(), ssl.MemoryBIO()
+        self.obj = tlskit.server_ctx(version).wrap_bio(self.inc, self.out, server_side=True)
+        self.handshaken = False
+
+    def feed(self, data):
+        self.inc.write(data)
+        if not self.handshaken:
+            try:
+                self.obj.do_handshake()
+                self.handshaken = True
+            except (self.ssl.SSLWantReadError, self.ssl.SSLWantWriteError):
+                pass
+        else:
+            with contextlib.suppress(self.ssl.SSLError):
+                self.obj.read(65536)
+        return self.out.read()
+
+    def encrypt(self, plaintext):
+        self.obj.write(plaintext)
+        return self.out.read()
+
+
+def _canon_bytes(start, n):
+    return bytes((i % 251) + 1 for i in range(start, start + n))
+
+
+def canonicalise(labels, obs, delivered, returned):
+    """TLS ciphertext differs from run to run; the protocol layer never looks at contents, so rename the bytes by
+    their position in the delivered stream (data labels start where the previous read event stopped; returned chunks
+    are located in the delivered stream left to right)."""
+    labels2, obs2 = [], []
+    pos = 0
+    it = iter(obs)
+    accepted_after = {}
+    # data labels and their [4, n, room] observation come in the same order
+    data_obs = [o for o in obs if o[0] == 4]
+    k = 0
+    for lab in labels:
+        if lab[0] == L_DATA:
+            labels2.append([L_DATA, _canon_bytes(pos, len(lab[1]))])
+            pos += data_obs[k][1]
+            k += 1
+        else:
+            labels2.append(lab)
+    search = 0
+    for o in obs:
+        if o[0] == 0 and o[1]:
+            at = delivered.find(o[1], search)
+            if at < 0:
+                at = delivered.find(o[1])
+            if at < 0:
+                obs2.append(o)
+                continue
+            obs2.append([0, _canon_bytes(at, len(o[1]))])
+            search = at + len(o[1])
+        else:
+            obs2.append(o)
+    returned2 = b"".join(o[1] for o in obs2 if o[0] == 0)
+    return labels2, obs2, _canon_bytes(0, len(delivered)), returned2
+
+
 def _scenario_output(scenario):
     labels, obs, delivered, returned, packets_ok, _results = run_scenario(scenario)
+    if scenario[0] == 2:
+        labels, obs, delivered, returned = canonicalise(labels, obs, delivered, returned)
     return labels, [obs, delivered, returned, packets_ok]
 
 
@@ -1009,6 +1132,12 @@ def _scenario_cases(thorough, rng):
     combos = [(0, 0, 0), (0, 0, 1), (0, 0, 2), (0, 1, 0), (0, 1, 1), (0, 1, 2),
               (1, 0, 0), (1, 0, 3), (1, 1, 0), (1, 1, 3), (1, 1, 2), (1, 0, 1)]
     ops = [[[0, 0], [1, 0]]] * 3
+    for consumer, cancel_kind in ((0, 0), (1, 0), (1, 2), (0, 1)):          # TLS 1.2 / 1.3 over the adapter
+        for chunks in streams[:2]:
+            for s1 in subs:
+                for s2 in subs:
+                    events = [[[1, s1], 0, chunks[0]], [[2, s2], 0, chunks[1]]]
+                    yield [2, consumer, cancel_kind, 0, ops, events], "grid"
     for layer, consumer, cancel_kind in combos:
         for late in (0, 1):
             for chunks in streams:
@@ -1041,7 +1170,8 @@ def _mode2_cases(thorough, rng):
     for scenario, origin in _scenario_cases(thorough, rng):
         labels, out = _scenario_output(scenario)
         _cache[repr(runner_norm(scenario))] = out
-        tags = ["layer", origin, LAYER_NAMES[scenario[0]], "buffered" if scenario[1] else "copying",
+        tags = ["layer", origin, LAYER_NAMES[scenario[0]],
+                ("tls1.3" if scenario[1] else "tls1.2") if scenario[0] == 2 else "buffered" if scenario[1] else "copying",
                 CANCEL_NAMES[scenario[2]]] + sorted(_window_tags(labels))
         if out[1] != out[2] and not any(o[0] == 2 for o in out[0]):
             tags.append("bytes-lost")
